@@ -58,6 +58,9 @@ pub enum Ty {
     NilOwn,
     /// `crate::rt::OptU8`, a type alias of `Option<u8>` (nil-capable, not syntactically an `Option`)
     OptAlias,
+    /// `Box<Option<T>>` (T an owned scalar leaf): a *mandatory* field whose value may be null - `Box` forwards neither
+    /// `is_nil` nor `nil`, so the null is written explicitly and a missing field is an error
+    BoxOpt(Box<Ty>),
 }
 
 #[derive(Clone, Debug)]
@@ -157,6 +160,7 @@ pub fn can_encode_null(t: &Ty, u: &Universe) -> bool {
     match t {
         Ty::NilWith | Ty::NilFns | Ty::NilOwn | Ty::OptAlias => true,
         Ty::BoxOf(x) => can_encode_null(x, u),
+        Ty::BoxOpt(_) => true,
         Ty::Struct(i) => match &u.defs[*i] { Def::Struct(s) if s.transparent => s.fields.iter().any(|f| f.optional || can_encode_null(&f.ty, u)), _ => false },
         _ => false
     }
@@ -200,7 +204,7 @@ fn field_ty(r: &mut Rng, u: &Universe, cfg: &GenCfg, depth: usize) -> Ty {
         11 | 12 if !structs.is_empty() => Ty::Struct(*r.pick(&structs)),
         13 | 14 if !enums.is_empty() => Ty::Enum(*r.pick(&enums)),
         15 if depth < 2 => Ty::VecOf(Box::new(field_ty(r, u, cfg, depth + 1))),
-        16 if depth < 2 => Ty::BoxOf(Box::new(field_ty(r, u, cfg, depth + 1))),
+        16 if depth < 2 => if depth == 0 && r.chance(35) { Ty::BoxOpt(Box::new(r.pick(&[Ty::U8, Ty::U16, Ty::I32, Ty::Bool, Ty::String, Ty::U64]).clone())) } else { Ty::BoxOf(Box::new(field_ty(r, u, cfg, depth + 1))) },
         17 if depth < 2 => Ty::MapU8(Box::new(field_ty(r, u, cfg, depth + 1))),
         18 if !generics.is_empty() => { let i = *r.pick(&generics); if r.bool_() { Ty::GenericInstOpt(i) } else { Ty::GenericInst(i) } }
         _ => leaf_ty(r, cfg)
@@ -246,7 +250,7 @@ fn gen_fields(r: &mut Rng, u: &Universe, cfg: &GenCfg, enc: Encoding, shape: Sha
     let mut fields: Vec<Field> = Vec::new();
     let mut used_param = false;
     for (k, i) in idx.iter().enumerate() {
-        let mut ty = if many { r.pick(&[Ty::U8, Ty::Bool, Ty::U16]).clone() } else { sanitize(field_ty(r, u, cfg, 0)) };
+        let mut ty = if many { if cfg.allow_custom { r.pick(&[Ty::U8, Ty::Bool, Ty::U16, Ty::U8, Ty::Bool, Ty::OptAlias, Ty::NilOwn]).clone() } else { r.pick(&[Ty::U8, Ty::Bool, Ty::U16]).clone() } } else { sanitize(field_ty(r, u, cfg, 0)) };
         if param && !used_param && (k == 0 || r.chance(30)) { ty = Ty::Param; used_param = true }
         let nil_capable = ty_has_nil(&ty);
         let mut ty = ty;
